@@ -289,8 +289,57 @@ def shard_words(s, ns, tier, seed, learn=False):
             word_case(part, P, ww, ln, rel, learned)
             if len(part.viols) != n0:
                 part.n += 1
+    if s == 0:
+        asm_order_case(part, P)
     part.learned = learned
     return part
+
+
+def asm_order_case(part, P):
+    """the assembler is a function of the text: the texts of one word per (class, register file) incl. every special and
+    segment register, assembled in one process forwards, and in another process backwards, give the same words"""
+    words = []
+    for sr in range(16):
+        for xo in (210, 595):                       # mtsr / mfsr
+            words.append((31 << 26) | (3 << 21) | (sr << 16) | (xo << 1))
+    for spr in range(1024):
+        sp = ((spr & 0x1f) << 5) | (spr >> 5)
+        for xo in (339, 467):
+            words.append((31 << 26) | (5 << 21) | (sp << 11) | (xo << 1))
+    for r in range(32):
+        words.append((31 << 26) | (r << 21) | (r << 16) | (r << 11) | (266 << 1))      # add
+        words.append((63 << 26) | (r << 21) | (r << 16) | (r << 11) | (21 << 1))       # fadd
+        words.append((19 << 26) | (r << 21) | (r << 16) | (r << 11) | (257 << 1))      # crand
+        words.append((11 << 26) | ((r & 28) << 21) | (r << 16) | 5)                    # cmpi crf
+    texts = []
+    with core.quiet_stdout():
+        for w in words:
+            try:
+                t = str(P.ppc_mn(w))
+            except Exception:
+                continue
+            if t not in texts:
+                texts.append(t)
+
+    def run_in_order(order):
+        out = {}
+        with core.quiet_stdout():
+            for t in order:
+                try:
+                    out[t] = [int.from_bytes(bytes(x), 'big') if not isinstance(x, int) else x for x in P.ppc_mn.asm(t)]
+                except Exception as ex:
+                    out[t] = 'EXC:%s' % type(ex).__name__
+        return out
+    fwd = core.isolated(run_in_order, texts)
+    bwd = core.isolated(run_in_order, texts[::-1])
+    mid = core.isolated(run_in_order, texts[len(texts) // 2:] + texts[:len(texts) // 2])
+    for t in texts:
+        part.n += 1
+        if fwd[t] == bwd[t] == mid[t]:
+            part.keys.add(core.h64(('order', t)))
+        else:
+            part.violation('step=asm-history mnemo=%s' % t.split()[0], 'asm(%r) gives %s / %s / %s depending on which texts were assembled before it in the process' % (
+                t, fwd[t], bwd[t], mid[t]), {'text': t, 'history': True}, size=len(t))
 
 
 def run(tier, seed):
@@ -315,6 +364,10 @@ def run(tier, seed):
 def replay(w):
     P = PPC()
     part = core.Part()
+    if w.get('history'):
+        asm_order_case(part, P)
+        bad = [v[1] for k, v in part.viols.items() if w['text'].split()[0] in k]
+        return bool(bad), '\n'.join(bad) or 'ok'
     with core.quiet_stdout():
         word_case(part, P, w['word'], llvm_names([w['word']])[0], load_relation(), None)
     if part.viols:
